@@ -180,6 +180,22 @@ def replay_case(arg):
     for a, b in zip(t_in + o_in, times + obs):
         if not np.array_equal(a, b):
             fail('NoInputWrite', 'data_modified', None)
+    # ---- the caller's parameter buffer refilled IN PLACE with another point: the result follows the content ----------
+    if not fails:
+        theta2 = np.round(theta * (1.0 + 0.1 * rng.uniform(-1, 1, size=len(theta))), 4)
+        theta_in[...] = theta2
+        try:
+            with warnings.catch_warnings():
+                warnings.simplefilter('error', RuntimeWarning)
+                v2 = ll(theta_in)
+                s2 = ll.evaluateS1(theta_in)[0]
+            cnt['evaluations'] = cnt.get('evaluations', 0) + 2
+            e2 = interp.value(ref, theta2)
+            if not (interp.close(v2, e2) and interp.close(s2, e2)):
+                fail('BagIsDecl', 'value_after_buffer_refill', dict(got=[float(v2), float(s2)], expected=e2))
+        except Exception as e:
+            fail('Evaluable', type(e).__name__, dict(op='buffer refill', error=repr(e)))
+        theta_in[...] = theta
     # ---- the same sums with one error-model parameter fixed at the likelihood (each in turn), then released ----------
     if not fails:
         for k_ in range(nmech, rec['nparams']):
